@@ -416,7 +416,6 @@ func whenSigned(info *types.Info, rule ast.Expr, isIsSigned func(*types.Func) bo
 	return found
 }
 
-
 // singleLocalDef returns the defining expression of a local variable that is
 // assigned exactly once in its function (found through the enclosing package
 // syntax), else nil.
